@@ -48,6 +48,7 @@ private def rdkgOutS : RabinDkg.Out → String
   | .complaintCommits => "complaintcommits" | .reconstructCommits => "reconstructcommits"
   | .errQual => "err:qual" | .errSid => "err:sid" | .errCommits => "err:commits" | .errComplaint => "err:complaint"
   | .errShareIndex => "err:shareindex" | .errNotCertified => "err:notcertified"
+  | .errRecover => "err:recover"
 
 private def insNat (k : Nat) : List Nat → List Nat
   | [] => [k]
